@@ -142,6 +142,8 @@ pub fn collect_sources<FS: FileSystem>(
     let mut files = VecDeque::new();
     files.push_back(root_file);
     while let Some(file_id) = files.pop_front() {
+        #[cfg(feature = "verif")]
+        syntax::verif::step();
         let parse = db.parse(file_id);
 
         let file_path = fs.path_for_file(&file_id);
